@@ -13,6 +13,13 @@ use tower_lsp_server::ls_types::*;
 use tower_lsp_server::{LanguageServer, LspService, Server};
 use tracing::{error, info, warn};
 
+/// `println!` for the CLI's output, see [`FixtureDatabase::print_line`].
+macro_rules! outln {
+    ($($arg:tt)*) => {
+        FixtureDatabase::print_line(format_args!($($arg)*))
+    };
+}
+
 impl LanguageServer for Backend {
     async fn initialize(&self, params: InitializeParams) -> Result<InitializeResult> {
         info!("Initialize request received");
@@ -469,9 +476,9 @@ fn handle_fixtures_unused(path: PathBuf, format: &str) {
 
     if unused.is_empty() {
         if format == "json" {
-            println!("[]");
+            outln!("[]");
         } else {
-            println!("{}", "No unused fixtures found.".green());
+            outln!("{}", "No unused fixtures found.".green());
         }
         std::process::exit(0);
     }
@@ -492,9 +499,9 @@ fn handle_fixtures_unused(path: PathBuf, format: &str) {
                 })
             })
             .collect();
-        println!("{}", serde_json::to_string_pretty(&json_output).unwrap());
+        outln!("{}", serde_json::to_string_pretty(&json_output).unwrap());
     } else {
-        println!(
+        outln!(
             "{} {} unused fixture(s):\n",
             "Found".red().bold(),
             unused.len()
@@ -505,7 +512,7 @@ fn handle_fixtures_unused(path: PathBuf, format: &str) {
                 .strip_prefix(&canonical_path)
                 .unwrap_or(file_path)
                 .to_string_lossy();
-            println!(
+            outln!(
                 "  {} {} in {}",
                 "•".red(),
                 fixture_name.yellow(),
@@ -513,7 +520,7 @@ fn handle_fixtures_unused(path: PathBuf, format: &str) {
             );
         }
 
-        println!(
+        outln!(
             "\n{}",
             "Tip: Remove unused fixtures or add tests that use them.".dimmed()
         );
